@@ -960,6 +960,14 @@ package server
 //@     assert [C06,C03:incoming-scan-stops-only-when-the-index-is-exhausted-or-the-page-is-full] (0 <= $itPos[outgoingIterator] && $itPos[outgoingIterator] < N($itTxn[outgoingIterator]) && hasPfx(K($itTxn[outgoingIterator], $itPos[outgoingIterator]), $itPlen[outgoingIterator], $itPcl[outgoingIterator], $itPds[outgoingIterator], $itP64[outgoingIterator]) && kcl(K($itTxn[outgoingIterator], $itPos[outgoingIterator])) == encBE16(searchBuffer, 0) && k64at2(K($itTxn[outgoingIterator], $itPos[outgoingIterator])) == encBE64(searchBuffer, 2)) ==> limit != 0 && len(results) >= limit
 //@   at $1 call ValidForPrefix#4 before
 //@     assert [C06,C03:outgoing-scan-stops-only-when-the-index-is-exhausted-or-the-page-is-full] (0 <= $itPos[outgoingIterator] && $itPos[outgoingIterator] < N($itTxn[outgoingIterator]) && hasPfx(K($itTxn[outgoingIterator], $itPos[outgoingIterator]), $itPlen[outgoingIterator], $itPcl[outgoingIterator], $itPds[outgoingIterator], $itP64[outgoingIterator]) && kcl(K($itTxn[outgoingIterator], $itPos[outgoingIterator])) == encBE16(searchBuffer, 0) && k64at2(K($itTxn[outgoingIterator], $itPos[outgoingIterator])) == encBE64(searchBuffer, 2)) ==> limit != 0 && len(results) >= limit
+//@   at $1 call append#1 before
+//@     assert [C03,C06,C07:incoming-result-passed-the-dataset-time-and-predicate-filters] !(has(s.deletedDatasets, prevResult.DatasetID) && s.deletedDatasets[prevResult.DatasetID]) && (len(from.Datasets) == 0 || (exists k int :: 0 <= k && k < len(from.Datasets) && from.Datasets[k] == prevResult.DatasetID)) && prevResult.Time <= from.At && (from.Predicate == 0 || from.Predicate == prevResult.PredicateID)
+//@   at $1 call append#2 before
+//@     assert [C03,C06,C07:incoming-result-passed-the-dataset-time-and-predicate-filters] !(has(s.deletedDatasets, dsResult.DatasetID) && s.deletedDatasets[dsResult.DatasetID]) && (len(from.Datasets) == 0 || (exists k int :: 0 <= k && k < len(from.Datasets) && from.Datasets[k] == dsResult.DatasetID)) && dsResult.Time <= from.At && (from.Predicate == 0 || from.Predicate == dsResult.PredicateID)
+//@   at $1 call append#3 before
+//@     assert [C03,C06,C07:incoming-result-passed-the-dataset-time-and-predicate-filters] !(has(s.deletedDatasets, prevResult.DatasetID) && s.deletedDatasets[prevResult.DatasetID]) && (len(from.Datasets) == 0 || (exists k int :: 0 <= k && k < len(from.Datasets) && from.Datasets[k] == prevResult.DatasetID)) && prevResult.Time <= from.At && (from.Predicate == 0 || from.Predicate == prevResult.PredicateID)
+//@   at $1 call append#4 before
+//@     assert [C03,C06,C07:incoming-result-passed-the-dataset-time-and-predicate-filters] !(has(s.deletedDatasets, dsResult.DatasetID) && s.deletedDatasets[dsResult.DatasetID]) && (len(from.Datasets) == 0 || (exists k int :: 0 <= k && k < len(from.Datasets) && from.Datasets[k] == dsResult.DatasetID)) && dsResult.Time <= from.At && (from.Predicate == 0 || from.Predicate == dsResult.PredicateID)
 //@   at $1 call append#5 before
 //@     assert [C07:result-dataset-not-deleted] !(has(s.deletedDatasets, datasetID) && s.deletedDatasets[datasetID])
 //@     assert [C03:result-dataset-in-scope] len(from.Datasets) == 0 || (exists k int :: 0 <= k && k < len(from.Datasets) && from.Datasets[k] == datasetID)
@@ -968,6 +976,22 @@ package server
 //@     assert [C03:result-is-a-live-key-of-the-scanned-entry] del != 1 && encBE16(k, 34) == del && encBE64(k, 26) == relatedID && encBE64(k, 18) == predID && encBE32(k, 36) == datasetID && encBE64(k, 10) == et
 //@   loop $1:1
 //@     invariant encBE16(searchBuffer, 0) == 2 && len(searchBuffer) == 10 && $itPlen[outgoingIterator] == 10
+//@     invariant prevResults != nil && (currentRID != 0 ==> dsSpillOver != nil)
+//@     invariant forall p uint64 :: has(prevResults, p) ==> !(has(s.deletedDatasets, prevResults[p].DatasetID) && s.deletedDatasets[prevResults[p].DatasetID])
+//@     invariant forall p uint64 :: has(prevResults, p) ==> (len(from.Datasets) == 0 || (exists k int :: 0 <= k && k < len(from.Datasets) && from.Datasets[k] == prevResults[p].DatasetID))
+//@     invariant forall p uint64 :: has(prevResults, p) ==> prevResults[p].Time <= from.At
+//@     invariant forall p uint64 :: has(prevResults, p) ==> (from.Predicate == 0 || from.Predicate == prevResults[p].PredicateID)
+//@     invariant dsSpillOver != nil ==> (forall d uint32 :: has(dsSpillOver, d) ==> !(has(s.deletedDatasets, dsSpillOver[d].DatasetID) && s.deletedDatasets[dsSpillOver[d].DatasetID]) && (len(from.Datasets) == 0 || (exists k int :: 0 <= k && k < len(from.Datasets) && from.Datasets[k] == dsSpillOver[d].DatasetID)) && dsSpillOver[d].Time <= from.At && (from.Predicate == 0 || from.Predicate == dsSpillOver[d].PredicateID))
+//@   loop $1:2
+//@     invariant -1 <= $i && $i < len(from.Datasets)
+//@     invariant datasetIncluded <==> (len(from.Datasets) == 0 || (exists k int :: 0 <= k && k <= $i && from.Datasets[k] == datasetID))
+//@   loop $1:4
+//@     invariant prevResults != nil && dsSpillOver != nil
+//@     invariant forall p uint64 :: has(prevResults, p) ==> !(has(s.deletedDatasets, prevResults[p].DatasetID) && s.deletedDatasets[prevResults[p].DatasetID])
+//@     invariant forall p uint64 :: has(prevResults, p) ==> (len(from.Datasets) == 0 || (exists k int :: 0 <= k && k < len(from.Datasets) && from.Datasets[k] == prevResults[p].DatasetID))
+//@     invariant forall p uint64 :: has(prevResults, p) ==> prevResults[p].Time <= from.At
+//@     invariant forall p uint64 :: has(prevResults, p) ==> (from.Predicate == 0 || from.Predicate == prevResults[p].PredicateID)
+//@     invariant forall d uint32 :: has(dsSpillOver, d) ==> !(has(s.deletedDatasets, dsSpillOver[d].DatasetID) && s.deletedDatasets[dsSpillOver[d].DatasetID]) && (len(from.Datasets) == 0 || (exists k int :: 0 <= k && k < len(from.Datasets) && from.Datasets[k] == dsSpillOver[d].DatasetID)) && dsSpillOver[d].Time <= from.At && (from.Predicate == 0 || from.Predicate == dsSpillOver[d].PredicateID)
 //@   loop $1:6
 //@     invariant encBE16(searchBuffer, 0) == 3 && len(searchBuffer) == 10 && $itPlen[outgoingIterator] == 10
 //@     invariant limit == 0 || len(results) <= limit || limit < 0
